@@ -849,6 +849,11 @@ class Engine:
                 return Int(v.discr, "isize")
             if isinstance(v, Opaque) and "discr" in v.attrs:
                 return Int(v.attrs["discr"], "isize")
+            if isinstance(v, Opaque):
+                # an abstract value whose variant the claim does not fix: any variant (stable per object)
+                d = z3.BitVec("opaquediscr_%d" % next(self.fresh), 64)
+                v.attrs["discr"] = d
+                return Int(d, "isize")
             raise Unsupported("discriminant of %r" % (v,))
         if k == "tuple":
             return Agg("tuple", None, [self.operand(st, frame, x) for x in rv[1]])
